@@ -74,17 +74,15 @@ theorem range'_getElem? (s n k j : Nat) (h : (List.range' s n)[k]? = some j) : j
   simp at hj
   omega
 
-/-- One pixel of `interpolate_occlusion_mc_cnn`, for a pixel carrying bit 8: the nearest valid pixel on the
-    left, otherwise the nearest on the right, gives the disparity and bit 8 becomes bit 4 by `-=`/`+=`;
-    without any valid pixel in the row nothing changes. -/
-theorem occlMcPixel_eq (m : DMap) (r c : Nat) (hc : c < m.cols)
-    (h8 : ((m.flag r c &&& occlusion) != 0) = true) (hinv : m.valid r c = false) :
-    occlMcPixel m r c =
+/-- The search of `interpolate_occlusion_mc_cnn` for a pixel carrying bit 8 (hence invalid): the disparity of
+    the nearest valid pixel on the left, otherwise of the nearest on the right, with `msk[arg_valid] = True`;
+    without any valid pixel in the row the pixel's own disparity with `msk[arg_valid] = False`. -/
+theorem occlMcCore_eq (m : DMap) (r c : Nat) (hc : c < m.cols) (hinv : m.valid r c = false) :
+    occlMcCore m r c =
       match sourceOcclMc m r c with
-      | some v => (v, m.flag r c - occlusion + filledOcclusion)
-      | none => (m.disp r c, m.flag r c) := by
-  unfold occlMcPixel
-  simp only [h8, if_true]
+      | some v => (v, true)
+      | none => (m.disp r c, false) := by
+  unfold occlMcCore
   -- the two masks of the code start with the pixel itself (False), followed by the candidates
   have hL : ((List.range (c + 1)).map fun j => m.valid r j).reverse
       = false :: ((List.range c).reverse.map (m.valid r)) := by
@@ -107,9 +105,9 @@ theorem occlMcPixel_eq (m : DMap) (r c : Nat) (hc : c < m.cols)
     have hja := reverse_range_getElem? c _ j hj
     have hne : (argmaxBool (false :: List.map (m.valid r) (List.range c).reverse) == 0) = false := by
       simpa using ha
-    simp only [hne, hb, b2n, if_true, Option.map_some, Bool.false_eq_true, if_false]
+    simp only [hne, hb, Option.map_some, Bool.false_eq_true, if_false]
     have : c - argmaxBool (false :: List.map (m.valid r) (List.range c).reverse) = j := by omega
-    rw [this]; simp
+    rw [this]
   | none =>
     obtain ⟨ha, _⟩ := hLn hl
     simp only [ha, beq_self_eq_true, if_true, Option.map_none]
@@ -117,11 +115,11 @@ theorem occlMcPixel_eq (m : DMap) (r c : Nat) (hc : c < m.cols)
     | some j =>
       obtain ⟨ha', hb', hj'⟩ := hRs j hr
       have hja := range'_getElem? _ _ _ j hj'
-      simp only [hb', b2n, if_true, Option.map_some]
+      simp only [hb', Option.map_some]
       have : c + argmaxBool (false :: List.map (m.valid r) (List.range' (c + 1) (m.cols - (c + 1)))) = j := by omega
-      rw [this]; simp
+      rw [this]
     | none =>
       obtain ⟨ha', hb'⟩ := hRn hr
-      simp [ha', b2n]
+      simp [ha']
 
 end Pandora.Interp
